@@ -39,6 +39,7 @@ type Opt struct {
 	Presence    int  // account presence: 0 free, 1 (S,D), 2 (S,nil), 3 (nil,D)
 	MultiK      int  // multi-transfer: number of tokens (0: 1..2)
 	CrossOnly   bool // NFT/multi sender side: the destination is pinned to another shard
+	SelfMeta    bool // the executing shard is the metachain (accounts handed to the call are metachain accounts)
 	Wild        bool // C11: arbitrary argument counts and adversarial lengths per argument role
 }
 
@@ -137,6 +138,9 @@ func newScn(name string, o Opt) *Scn {
 		cfg.MaxURIs = 0
 	}
 	s := &Scn{Name: name, O: o, W: world.New(cfg)}
+	if o.SelfMeta {
+		s.W.Shards.Self = vmcommon.MetachainShardId
+	}
 	s.Roles = &world.RolesStub{W: s.W}
 	return s
 }
